@@ -116,6 +116,7 @@ class Ctx(object):
                 h[2] = {"case": case, "detail": detail}
             return
         self.nviol += 1
+        self.count("violations_at:%s" % site)
         if len(self.viols) < MAX_VIOL_PER_SHARD:
             self.viols.append({"clause": self.clause, "site": site,
                                "case": case, "detail": detail, "dev": dev})
